@@ -29,7 +29,10 @@ pub const VERSIONS: [&str; 8] = ["0.7A", "0.6W43", "0.7E15", "0.04K", "1A", "0.7
 pub const CARS: [&str; 6] = ["XFG", "XRT", "FBM", "BF1", "UF1", "FO8"];
 const TEXT_ALPHA: &[u8] = b"abcdefghijklmnopqrstuvwxyzABCDEFGHIJKLMNOPQRSTUVWXYZ0123456789 .,-_!()[]";
 
-pub fn stable_text(rng: &mut Rng, len: usize) -> Vec<u8> { (0..len).map(|_| *rng.pick(TEXT_ALPHA)).collect() }
+/// codepage-stable text: ASCII without carets plus (one in seven) Latin-1 letters 0xC0..=0xFF, which the default codepage maps
+/// to one byte each way (so the byte-level model applies) but which are two bytes inside a Rust String
+pub fn ascii_text(rng: &mut Rng, len: usize) -> Vec<u8> { (0..len).map(|_| *rng.pick(TEXT_ALPHA)).collect() }
+pub fn stable_text(rng: &mut Rng, len: usize) -> Vec<u8> { (0..len).map(|_| if rng.chance(1, 7) { 0xC0 + rng.below(0x40) as u8 } else { *rng.pick(TEXT_ALPHA) }).collect() }
 
 fn boundary(rng: &mut Rng, w: usize) -> u64 {
     let maxv = if w >= 8 { u64::MAX } else { (1u64 << (8 * w)) - 1 };
@@ -56,9 +59,10 @@ pub fn gen_atom(rng: &mut Rng, a: &Atom, count: u64, dirt: u8, m: &mut Meta) -> 
         Atom::Bool => if dirty(rng) { m.canonical = false; vec![rng.range(2, 255) as u8] } else { vec![rng.below(2) as u8] },
         Atom::Char8 => vec![rng.byte()],
         Atom::Count { w, .. } => le(count, *w),
-        Atom::Text { n, .. } => {
+        Atom::Text { n, raw } => {
             let len = match rng.below(5) { 0 => 0, 1 => *n, 2 => n - 1, _ => rng.below(*n as u64 + 1) as usize };
-            let mut t = stable_text(rng, len); t.resize(*n, 0);
+            // raw fields (passwords) are not codepage converted: only ASCII is stable there
+            let mut t = if *raw { ascii_text(rng, len) } else { stable_text(rng, len) }; t.resize(*n, 0);
             if len < *n && dirty(rng) { m.canonical = false; for i in len + 1..*n { t[i] = rng.byte(); } }
             t
         },
